@@ -1858,12 +1858,10 @@ class unyt_array(np.ndarray):
                 out_func = tuple(out_func)
             else:
                 out = out[0]
-                if out.dtype.kind in ("u", "i"):
-                    new_dtype = "f" + str(out.dtype.itemsize)
-                    float_values = out.astype(new_dtype)
-                    out.dtype = new_dtype
-                    np.copyto(out, float_values)
-                out_func = out.view(np.ndarray)
+                # the view the kernel writes into is taken (and an integer
+                # output made float, see _float_out_view) only once the
+                # operands have passed the unit checks
+                out_func = None
         if len(inputs) == 1:
             # Unary ufuncs
             inp = inputs[0]
@@ -1877,6 +1875,8 @@ class unyt_array(np.ndarray):
             if u.dimensions is angle and ufunc in trigonometric_operators:
                 # ensure np.sin(90*degrees) works as expected
                 inp = inp.in_units("radian").v
+            if out is not None and out_func is None:
+                out_func = _float_out_view(out)
             # evaluate the ufunc
             out_arr = func(np.asarray(inp), out=out_func, **kwargs)
             if ufunc in (multiply, divide) and method == "reduce":
@@ -2034,6 +2034,8 @@ class unyt_array(np.ndarray):
                         inp1 = np.asarray(inp1, dtype=new_dtype) * conv
             # get the unit of the result
             mul, unit = unit_operator(u0, u1)
+            if out is not None and out_func is None:
+                out_func = _float_out_view(out)
             # actually evaluate the ufunc
             out_arr = func(
                 inp0.view(np.ndarray), inp1.view(np.ndarray), out=out_func, **kwargs
@@ -2598,6 +2600,17 @@ def ustack(arrs, axis=0):
     v = np.stack._implementation(arrs, axis=axis)
     v = _validate_numpy_wrapper_units(v, arrs)
     return v
+
+
+def _float_out_view(out):
+    # plain-ndarray view of an ``out=`` array for the ufunc kernel to write
+    # into; an integer array is first made a float array of the same item size
+    if out.dtype.kind in ("u", "i"):
+        new_dtype = "f" + str(out.dtype.itemsize)
+        float_values = out.astype(new_dtype)
+        out.dtype = new_dtype
+        np.copyto(out, float_values)
+    return out.view(np.ndarray)
 
 
 def _wrap_ufunc_output(out_arr, unit, ret_class):
